@@ -16,7 +16,7 @@ META = {
              "d 2-4, cycles 0-8, full and simplified; multi-round experiment circuits); distinct by structural hash; non-trivial = nesting depth >= 2"),
     "assumptions": ["for generated programs only the multiset clause is asserted (the statement promises order/schedule only for library circuits)"],
     "floors": {
-        "quick": {"flatten_calls": 2500, "second_flatten_checks": 2500, "library_flatten_checks": 50, "library_unobserved_flatten_checks": 50, "simplified_zero_cycle_inputs": 8, "duration_read_before_first_listing": 15, "schedule_read_under_other_override": 10, "leaves_compared": 30000, "deep_flatten_depth": 1300},
+        "quick": {"distance_1_inputs": 2, "flatten_calls": 2500, "second_flatten_checks": 2500, "library_flatten_checks": 50, "library_unobserved_flatten_checks": 50, "simplified_zero_cycle_inputs": 8, "duration_read_before_first_listing": 15, "schedule_read_under_other_override": 10, "leaves_compared": 30000, "deep_flatten_depth": 1300},
         "thorough": {"flatten_calls": 30000, "second_flatten_checks": 30000, "library_flatten_checks": 150},
     },
 }
@@ -216,8 +216,13 @@ def run_shard(shard: Dict[str, Any]) -> Acc:
         return acc
     if shard["kind"] == "library":
         for i in range(shard["n"]):
-            inp = libgen.gen_repcode_input(rng, max_distance=4, max_cycles=8, simplified_zero_cycles=True, composite_p=0.3)
-            if i < 8:
+            inp = libgen.gen_repcode_input(rng, max_distance=4, max_cycles=8, simplified_zero_cycles=True, composite_p=0.3, min_distance=1)
+            if inp["distance"] == 1:
+                # one data qubit, no ancilla: only the full constructor builds such a circuit (the simplified one has nothing to start from);
+                # seeded change C11-r14 shows there: a sub-circuit opening with a Barrier right behind a Barrier
+                inp["constructor"] = "full"
+                acc.count("distance_1_inputs")
+            elif i < 8:
                 # directed corner: the simplified constructor with 0 cycles (a sub-circuit with repetition count 0)
                 inp["constructor"], inp["cycles"] = "simplified", 0
                 acc.count("simplified_zero_cycle_inputs")
